@@ -250,17 +250,6 @@ fn c03_role_predicates() {
     let invalid = (syn && (fin || rst)) || (fin && rst) || ty == 0;
     assert!(is_valid(f, ty) == !invalid);
 }
-#[kani::proof]
-fn c19_direction_rule() {
-    let f: u8 = kani::any();
-    let sp: u16 = kani::any();
-    let dp: u16 = kani::any();
-    let syn = f & 0x02 != 0;
-    let ack = f & 0x10 != 0;
-    let expect = if syn && !ack { true } else if syn && ack { false } else { sp > 1024 && dp <= 1024 };
-    assert!(is_packet_from_client(f, sp, dp) == expect);
-}
-
 // ---------------------------------------------------------------- visit_tcp, option-less header
 fn mk_tcp20(buf: &mut [u8; 20], flags: u8) {
     buf[0] = kani::any(); buf[1] = kani::any(); buf[2] = kani::any(); buf[3] = kani::any();
